@@ -51,6 +51,24 @@ func (o *OrderedMap[K, V]) Tail() (key K, value V, exists bool) {
 	return
 }
 
+// Only returns the map entry if it is the only one of the map.
+func (o *OrderedMap[K, V]) Only() (key K, value V, exists bool) {
+	if o == nil {
+		return
+	}
+
+	o.mutex.RLock()
+	defer o.mutex.RUnlock()
+
+	if exists = o.size == 1 && o.head != nil; !exists {
+		return
+	}
+	key = o.head.key
+	value = o.head.value
+
+	return
+}
+
 // Has returns if an entry with the given key exists.
 func (o *OrderedMap[K, V]) Has(key K) (has bool) {
 	o.mutex.RLock()
